@@ -65,6 +65,39 @@ def triple(x):
     return sp.expand(sum(x[0][i] * c[i] for i in range(3)))
 
 
+def _negative_guard(fn, cond, pol):
+    """the variable v such that (cond, pol) states 'v < 0' (also written 0 > v, through !, parentheses, or a const local that only
+    names v's value at that point), else None"""
+    from ..model import stable_locals
+    c = strip(cond)
+    while True:
+        if c.get("k") == "ParenExpr" and c.get("c"):
+            c = strip(c["c"][0])
+        elif c.get("k") == "UnaryOperator" and c.get("op") == "!":
+            pol = not pol
+            c = strip(c["c"][0])
+        else:
+            break
+    if not pol or c.get("k") != "BinaryOperator" or c.get("op") not in ("<", ">"):
+        return None
+    l, r = strip(c["c"][0]), strip(c["c"][1])
+    if c["op"] == ">":
+        l, r = r, l
+    if r.get("k") not in ("FloatingLiteral", "IntegerLiteral") or float(r.get("v", "1")) != 0.0 or l.get("k") != "DeclRefExpr":
+        return None
+    st = stable_locals(fn)
+    ref = l["ref"]
+    for _ in range(4):
+        i = strip(st.get(ref.get("did"), {})) if ref.get("did") in st else {}
+        while i.get("k") == "ParenExpr" and i.get("c"):
+            i = strip(i["c"][0])
+        if i.get("k") == "DeclRefExpr" and (i.get("ref") or {}).get("dk") == "Var":
+            ref = i["ref"]
+        else:
+            break
+    return ref
+
+
 def orientation_order(rep, prog, rule="C12.volume-integrand"):
     """check_face_normal_orientation decides 'inside-out' from the sign of the signed volume; that sign is the orientation of the
     surface only if it is summed over faces whose winding has already been made mutually consistent by the flood fill."""
@@ -74,9 +107,13 @@ def orientation_order(rep, prog, rule="C12.volume-integrand"):
     var = None
     for f in flips:
         for cond, pol in fi.guards(f):
-            c = strip(cond)
-            if c.get("k") == "BinaryOperator" and c.get("op") in ("<", ">") and strip(c["c"][0]).get("k") == "DeclRefExpr":
-                var = strip(c["c"][0])["ref"]
+            v_ = _negative_guard(fn, cond, pol)
+            if v_ is not None:
+                var = v_
+            else:
+                c = strip(cond)
+                if var is None and c.get("k") == "BinaryOperator" and c.get("op") in ("<", ">") and strip(c["c"][0]).get("k") == "DeclRefExpr":
+                    var = strip(c["c"][0])["ref"]
     if var is None:
         return None
     accs = [n for n in walk(fn["body"]) if n.get("k") == "CompoundAssignOperator" and n.get("op") in ("+=", "-=") and strip(n["c"][0]).get("k") == "DeclRefExpr" and strip(n["c"][0])["ref"].get("did") == var["did"]]
@@ -182,9 +219,8 @@ def volume(rep, prog):
         if loop is None or not loop["var"].get("t", "").endswith("&"):
             continue
         for cond, pol in fi.guards(f):
-            c = strip(cond)
-            if c.get("k") == "BinaryOperator" and c.get("op") == "<" and pol and isinstance(ov, dict) and strip(c["c"][0]).get("k") == "DeclRefExpr" and strip(c["c"][0])["ref"].get("did") == ov["did"] \
-                    and strip(c["c"][1]).get("k") in ("FloatingLiteral", "IntegerLiteral") and float(strip(c["c"][1]).get("v", "1")) == 0.0:
+            v_ = _negative_guard(fn, cond, pol)
+            if v_ is not None and isinstance(ov, dict) and v_.get("did") == ov["did"]:
                 good = True
     if good:
         rep.ok("C12.volume-integrand", prog, fn, None, "if the signed volume is negative every used face is flipped (through a reference)")
@@ -390,6 +426,8 @@ def aabb(rep, prog):
         neg = txt.startswith("-")
         if "infinity" not in txt or (kind == "min" and neg) or (kind == "max" and not neg):
             inits_ok = False
+    if not rets or len(got) != 6 or any(g is None for g in got):
+        raise AnalysisBroken("get_aabb: the six returned values are not all running extrema of a node coordinate recognised by this checker (%s): the layout of the box is not decided" % got)
     if got == want and inits_ok:
         rep.ok("C12.aabb", prog, fn, rets[0], "returns (min_x,min_y,min_z,max_x,max_y,max_z); minima start at +inf, maxima at -inf")
     else:
@@ -403,14 +441,23 @@ def covariance(rep, prog):
     found = {}
     for t, n in accs:
         m = re.match(r"^cov_([xyz])([xyz])", t)
-        if not m:
-            continue
-        a, b = m.group(1), m.group(2)
         ev = S.SymEval(prog, fn, lazy_scalars=False)
         try:
             e = sp.expand(sp.sympify(ev.ev(n["c"][1])))
         except S.Decline as ex:
+            if not m:
+                continue
             raise AnalysisBroken("%s: %s" % (prog.loc(fn, n), ex))
+        if not m:
+            # the role of an accumulator is what it accumulates, whatever its name
+            axes_ = sorted({s_.name[-2] for s_ in e.free_symbols if re.search(r"\[\*n\]\.pos_\.d[xyz]_$", s_.name)})
+            if len(axes_) == 1:
+                m = re.match(r"^cov_([xyz])([xyz])", "cov_%s%s" % (axes_[0], axes_[0]))
+            elif len(axes_) == 2:
+                m = re.match(r"^cov_([xyz])([xyz])", "cov_%s%s" % (axes_[0], axes_[1]))
+            else:
+                continue
+        a, b = m.group(1), m.group(2)
         # expected: (p_a - c_a)(p_b - c_b) with p the loop node position, c the centroid local
         ps = {s_.name[-2]: s_ for s_ in e.free_symbols if re.search(r"\[\*n\]\.pos_\.d[xyz]_$", s_.name)}
         cs = {s_.name[-2]: s_ for s_ in e.free_symbols if s_ not in ps.values()}
@@ -440,6 +487,8 @@ def covariance(rep, prog):
             if refs == want:
                 good = True
                 rep.ok("C12.covariance", prog, fn, m, "covariance matrix is symmetric with entry (a,b) = cov_ab")
+    if not good and (len(found) != 6 or not any(len([x for x in walk(m_) if x.get("k") == "DeclRefExpr" and x["ref"].get("dk") == "Var"]) == 9 for m_ in mats)):
+        raise AnalysisBroken("get_cell_longest_axis: the six covariance accumulators / the nine entries of the matrix handed to the eigen solver are not in a form this checker decides (%d accumulators recognised)" % len(found))
     if not good:
         rep.violation("C12.covariance", prog, fn, mats[0] if mats else None, "covariance matrix entries misplaced", "the 3x3 matrix handed to the eigen solver is not [[xx,xy,xz],[xy,yy,yz],[xz,yz,zz]]")
 
